@@ -25,7 +25,7 @@ def handle (line : String) : String :=
     else if op.startsWith "per_" then per toks
     else if op == "gsess" then gsess toks
     else if op == "decomp" then c08 toks
-    else if op == "seal" then nlaOps toks
+    else if op == "seal" || op == "ntlm_auth" || op == "ts_chal" || op == "ts_validate" then nlaOps toks
     else if op == "x224_conn" || op == "gcc_ccr" || op == "lic" || op == "mcs_conn" || op == "sec_conn" then connectOps toks
     else if op == "msg_wr" || op == "msg_rd" || op == "msg_rt" then c18 toks
     else "bad-op"
